@@ -2,8 +2,8 @@ package sx
 
 import (
 	"fmt"
-	"runtime/debug"
 	"go/types"
+	"runtime/debug"
 
 	"gosx/smt"
 
@@ -13,18 +13,18 @@ import (
 // gor is an interpreted goroutine. Each one runs on its own native goroutine, but
 // only the holder of the baton runs; all others are parked on their resume channel.
 type gor struct {
-	id      int
-	resume  chan struct{}
-	started bool
-	done    bool
-	blocked bool
-	ready   func() bool
-	what    string // what it is blocked on (for reports)
-	stack   []*frame
-	depth   int
-	name    string
-	held    map[*Obj]bool // mutexes held (lock-set analysis)
-	exited  chan struct{}
+	id        int
+	resume    chan struct{}
+	started   bool
+	done      bool
+	blocked   bool
+	ready     func() bool
+	what      string // what it is blocked on (for reports)
+	stack     []*frame
+	depth     int
+	name      string
+	held      map[*Obj]bool // mutexes held (lock-set analysis)
+	exited    chan struct{}
 	quiescing bool
 }
 
@@ -34,18 +34,18 @@ type sendReq struct {
 }
 
 type ChanObj struct {
-	ID     int
-	cap    int
-	buf    []Value
-	closed bool
-	recvq  int
-	sendq  []*sendReq
-	elem   types.Type
-	timer  bool  // time.After style channel: may fire once
-	period *smt.Term // ticker: re-arms itself after firing
-	fired  bool
+	ID       int
+	cap      int
+	buf      []Value
+	closed   bool
+	recvq    int
+	sendq    []*sendReq
+	elem     types.Type
+	timer    bool      // time.After style channel: may fire once
+	period   *smt.Term // ticker: re-arms itself after firing
+	fired    bool
 	deadline *smt.Term
-	ctxDone bool // context Done channel (closed by cancel)
+	ctxDone  bool // context Done channel (closed by cancel)
 }
 
 func (e *Engine) newChan(n int, t types.Type) *ChanObj {
